@@ -275,6 +275,10 @@ def c14(rep, tier):
     uses_yylineno = line_src == 'yylineno'
     for o in ('reentrant', 'noyywrap'):
         L5.check(o in spec.options, 'option %s' % o, 'present', 'option %s missing' % o, 'Compiler/src/lexer.l')
+    seven = [o for o in spec.options if o.lower() in ('7bit', '-7')]
+    L5.check(not seven, 'option 8bit (default)', 'the scanner is generated for all 256 byte values', 'option %s: the generated scanner indexes its tables with bytes >= 0x80 although they have 128 entries - '
+             'a byte of a UTF-8 character in a comment or a name is undefined behaviour instead of a skipped / one-character token' % (seven[0] if seven else ''), 'Compiler/src/lexer.l',
+             witness={'input': 'x0 := 1 // größer'} if seven else None)
     if line_src is None:
         L5.unknown('line source', 'cannot see which expression TOK passes as the line of a token')
     elif uses_yylineno:
@@ -444,6 +448,10 @@ def scan_rules(rep, sfacts):
         push = pushes[0]
         tokvar = strip_casts(push.e['args'][0])
         first = [y for y in ylex if g.dominates(y, push)]
+        if not first:
+            S2.violation('scan: token identity', 'the token that is appended is not always one that yylex wrote: no yylex call dominates the append (on some path the '
+                         'token variable keeps what an earlier iteration left, or nothing)', 'Compiler/src/scan.cpp:%d' % push.e['loc'][0])
+            first = ylex[:1]
         okfirst = len(first) >= 1 and all('&' + tokvar.get('name', '?') in show(y.e) for y in ylex)
         # every other yylex call (which overwrites the token) sits under the INCLUDE test
         others = [y for y in ylex if y not in first or (len(first) > 1 and y is not first[0])]
@@ -513,6 +521,20 @@ def scan_rules(rep, sfacts):
                  'a scanner is created with the content of one file and the name of another: %s' % (show(bad_call)[:80] if bad_call else ''), 'Compiler/src/scan.cpp:%d' % scan['loc'][1])
     S4 = rep.rule('C14.S4', 'the scan buffer covers the whole content (length-based entry point), not a NUL-terminated prefix', floor=1)
     content = cs['params'][0]
+    # ... and the content stays what it is: the same file may be included again
+    for e in walk_all_exprs(cs['body']):
+        tgt = None
+        if e.get('k') == 'call' and e.get('obj') is not None and (e.get('callee') or '').split('::')[-1] in ('clear', 'swap', 'erase', 'resize', 'assign', 'operator=', 'pop_back', 'shrink_to_fit', 'insert', 'append', 'operator+=', 'replace'):
+            tgt = strip_casts(e['obj'])
+        elif e.get('k') == 'assign':
+            tgt = strip_casts(e['l'])
+        args_ = [strip_casts(a) for a in e.get('args', [])] if e.get('k') == 'call' else []
+        hit = (tgt is not None and tgt.get('d') == content['d']) or \
+              (e.get('k') == 'call' and (e.get('callee') or '').split('::')[-1] in ('swap', 'move', 'exchange') and any(a is not None and a.get('d') == content['d'] for a in args_))
+        if hit and '&' in (content.get('cty') or '') and not (content.get('cty') or '').startswith('const '):
+            S4.violation('create_scanner: content is only read', 'create_scanner modifies the file content it receives by reference (%s): the entry of the file table is changed, and a later include '
+                         'of the same file scans something else (nothing)' % show(e)[:60], 'Compiler/src/scan.cpp:%d' % e['loc'][0],
+                         witness={'input': 'main: include "a" include "b"   a: include "c"   b: include "c"', 'effect': 'the second include of c yields no tokens'})
     bufs = [ev for ev in gc.calls() if (ev.e.get('callee') or '').startswith('yy_scan_')]
     if len(bufs) != 1:
         S4.unknown('create_scanner', '%d yy_scan_* calls' % len(bufs))
@@ -743,6 +765,22 @@ def c15(rep, tier):
     else:
         okes = okes and len(rets) == 2 and strip_casts(rets[-1]['e']).get('v') is False
     I4.check(okes, 'exists_scanner', 'compares the key with every element of the stack; false only after the whole stack', 'the recursion test does not inspect the whole stack', W % es['loc'][1])
+    # ... by full equality of the two names
+    keyp = es['params'][1]
+    for e in walk_all_exprs(es['body']):
+        if e.get('k') != 'call' or not any(x.get('k') == 'ref' and x.get('d') == keyp['d'] for a in (e.get('args') or []) + ([e['obj']] if e.get('obj') is not None else []) for x in walk_expr(a)):
+            continue
+        short = (e.get('callee') or '').split('::')[-1]
+        partial = None
+        if short == 'compare' and len([a for a in e.get('args', []) if not a.get('default_arg')]) >= 3:
+            partial = 'compare(pos, len, key) looks at a part of the name only'
+        elif short in ('starts_with', 'ends_with', 'find', 'rfind', 'contains', 'find_first_of', 'strncmp', 'strncasecmp', 'strstr', 'substr'):
+            partial = '%s() is no equality test' % short
+        elif short in ('strcasecmp', 'stricmp'):
+            partial = '%s() ignores the case of letters' % short
+        if partial:
+            I4.violation('exists_scanner: names are compared for equality', '%s: a file whose name merely resembles the name of an open file (e.g. "add" while "add_test.theo" is being scanned) is '
+                         'reported as a recursive include and its tokens are dropped' % partial, W % e['loc'][0], witness={'files': 'add_test.theo: include "add"'})
     g = M.cfg(scan)
     ev = err_pushes('RECURSIVE_INCLUDE')
     ok = len(ev) == 1 and guarded(ev[0].g, ev[0].ev, lambda c: is_call(c, 'exists_scanner'), True)
